@@ -343,6 +343,12 @@ func c08RunIdx(c *core.Ctx, k c08IdxCase) {
 		s.SetMutex()
 		desc["mutex"] = true
 	}
+	if c.Idx%2 == 1 {
+		// the ordering mode concerns Pop alone; every index means what it meant
+		s.SetFIFO(true)
+		m.Fifo = true
+		desc["fifo"] = true
+	}
 	before, _ := Take(s)
 	content0 := append([]any{}, m.Items...)
 	x := "NEW"
@@ -658,11 +664,15 @@ func c08RunElem(c *core.Ctx, n int) {
 				func() stackage.Stack {
 					return stackage.And().Push(stackage.Or().Push(aw.New()), "sibling", stackage.And().Push(stackage.List().Push(aw.New())))
 				},
-				func() stackage.Stack { return stackage.And().Push(aw.New(), stackage.Or().Push(stackage.And().Push("x", "y"))) },
+				func() stackage.Stack {
+					return stackage.And().Push(aw.New(), stackage.Or().Push(stackage.And().Push("x", "y")))
+				},
 				func() stackage.Stack {
 					return stackage.And().Push(stackage.Cond("k", stackage.Eq, aw.New()), stackage.And().Push(stackage.Or().Push("x", "y")))
 				},
-				func() stackage.Stack { return stackage.Or().Push(stackage.And().Push(stackage.Cond("k", stackage.Ne, aw.New()))) },
+				func() stackage.Stack {
+					return stackage.Or().Push(stackage.And().Push(stackage.Cond("k", stackage.Ne, aw.New())))
+				},
 				func() stackage.Stack { return stackage.Not().Push(aw.New()) },
 				func() stackage.Stack { return stackage.List().SetMutex().Push(stackage.And().Push(aw.New())) },
 				func() stackage.Stack {
